@@ -187,6 +187,7 @@ func runGatedMerge(c *explore.Ctx, arg, prop string, install func(w *Writers)) {
 	}
 	mem := NewMemory()
 	d := &explore.ScheduleDFS{
+		Settle:   settle,
 		Scenario: a.Name(),
 		New: func() (explore.World, error) {
 			g, err := NewGatedMerge(a, mem)
